@@ -134,7 +134,7 @@ def build(ctx, topo):
             steps = [ctx.td(f"s_{n}{k}", lo_us=1) for k in range(nst)]
             comps[n] = HComp(n, ci, start, steps, inputs=ins[n], outputs=outs[n],
                              initial_pull=c.get("init_pull", True), out_deps=c.get("out_deps"),
-                             finish_after=c.get("finish_after"))
+                             finish_after=c.get("finish_after"), required_idiom=c.get("required_idiom", False))
         else:
             comps[n] = HPull(n, ins[n], outs[n])
     order = topo.get("order") or list(range(len(specs)))
